@@ -173,7 +173,7 @@ fn key_u64<K: 'static>(k: &K) -> u64 {
 struct Gate { permits: u64, committed: u64, open: bool }
 /// One-shot rendezvous inside `get_wide_column` (used by the two-thread scenarios).
 #[derive(Default)]
-struct ReadBlock { armed_key: Option<u64>, armed_scan: Option<u64>, reached: bool, release: bool }
+struct ReadBlock { armed_key: Option<u64>, armed_scan: Option<u64>, reached: bool, release: bool, done: bool }
 #[derive(Default)]
 struct KvInner {
     wide: Mutex<HashMap<(TypeId, TypeId, u64), AnyBox>>,
@@ -261,8 +261,8 @@ impl HarnessKv {
             if t0.elapsed() > Duration::from_secs(30) { panic!("harness: commit {n} did not happen (have {})", g.committed); }
         }
     }
-    fn arm_read_block(&self, key: u64) { *self.0.rb.lock().unwrap() = ReadBlock { armed_key: Some(key), armed_scan: None, reached: false, release: false }; }
-    fn arm_scan_block(&self, key: u64) { *self.0.rb.lock().unwrap() = ReadBlock { armed_key: None, armed_scan: Some(key), reached: false, release: false }; }
+    fn arm_read_block(&self, key: u64) { *self.0.rb.lock().unwrap() = ReadBlock { armed_key: Some(key), armed_scan: None, reached: false, release: false, done: false }; }
+    fn arm_scan_block(&self, key: u64) { *self.0.rb.lock().unwrap() = ReadBlock { armed_key: None, armed_scan: Some(key), reached: false, release: false, done: false }; }
     fn wait_read_reached(&self) {
         let mut g = self.0.rb.lock().unwrap();
         let t0 = Instant::now();
@@ -271,6 +271,19 @@ impl HarnessKv {
             g = g2;
             if t0.elapsed() > Duration::from_secs(30) { panic!("harness: blocked read never reached"); }
         }
+    }
+    /// the blocked thread reports that its operation returned (possibly without ever reaching the rendezvous)
+    fn mark_done(&self) { let mut g = self.0.rb.lock().unwrap(); g.done = true; self.0.rb_cv.notify_all(); }
+    /// waits until the rendezvous is reached (true) or the operation returned without reaching it (false)
+    fn wait_reached_or_done(&self) -> bool {
+        let mut g = self.0.rb.lock().unwrap();
+        let t0 = Instant::now();
+        while !g.reached && !g.done {
+            let (g2, _) = self.0.rb_cv.wait_timeout(g, Duration::from_millis(100)).unwrap();
+            g = g2;
+            if t0.elapsed() > Duration::from_secs(30) { panic!("harness: blocked scan neither reached nor finished"); }
+        }
+        g.reached
     }
     fn release_read(&self) { let mut g = self.0.rb.lock().unwrap(); g.release = true; self.0.rb_cv.notify_all(); }
 }
@@ -885,6 +898,48 @@ fn scenario_set_fill_vs_insert<S: SentinelCol>(cap: u64, remove: bool) -> (BTree
     (v1, after, if remove { [1u64].into_iter().collect() } else { [1u64, 2, 9].into_iter().collect() })
 }
 
+/// Set cache, read racing with commit + flush: a batch on set 1 (store {1,2}) is staged and submitted but not
+/// committed; a `get` of the uncached set has taken its staging snapshot and its `scan_members` has READ the store
+/// and is parked before returning; the batch is committed and its after-commit `FlushUpTo` runs (the staging log is
+/// emptied); the scan resumes.  The read – and every later read – must contain the batch's effect.
+/// `evicted`: the set was read (cached) before and is pushed out of a tiny cache first; otherwise it was never read.
+/// Returns None when the set could not be evicted (nothing was tested).
+fn scenario_scan_vs_commit_flush<S: SentinelCol>(cap: u64, evicted: bool, remove: bool) -> Option<(BTreeSet<u64>, BTreeSet<u64>, BTreeSet<u64>)> {
+    let kv = HarnessKv::default();
+    kv.apply(vec![KvOp::InsM(TypeId::of::<SCol>(), 1, 1), KvOp::InsM(TypeId::of::<SCol>(), 1, 2)]);
+    let mut env = Env::<S>::new(cap, kv.clone());
+    if evicted { let _: Vec<u64> = env.rt.block_on(env.setm.get(&HKey(1))).collect(); }
+    env.begin();
+    { let b = env.open.as_mut().unwrap(); if remove { env.rt.block_on(env.setm.remove(&HKey(1), &2, b)); } else { env.rt.block_on(env.setm.insert(HKey(1), 9, b)); } }
+    env.submit();
+    let want: BTreeSet<u64> = if remove { [1u64].into_iter().collect() } else { [1u64, 2, 9].into_iter().collect() };
+    for attempt in 0..40u64 {
+        if evicted { for _ in 0..(64 + 32 * attempt) { env.fresh += 1; let f = HKey(env.fresh); let _: Vec<u64> = env.rt.block_on(env.setm.get(&f)).collect(); } }
+        kv.arm_scan_block(1);
+        let setm = env.setm.clone();
+        let kv2 = kv.clone();
+        let t1 = std::thread::spawn(move || {
+            let rt = tokio::runtime::Builder::new_current_thread().build().unwrap();
+            let r = rt.block_on(setm.get(&HKey(1))).collect::<BTreeSet<u64>>();
+            kv2.mark_done();
+            r
+        });
+        if kv.wait_reached_or_done() {
+            env.commit_one();
+            env.notify_one(); // FlushUpTo(epoch): the staging log of key 1 is emptied
+            kv.release_read();
+            let v1 = t1.join().unwrap();
+            let after: BTreeSet<u64> = env.rt.block_on(env.setm.get(&HKey(1))).collect();
+            env.shutdown();
+            return Some((v1, after, want));
+        }
+        let hit = t1.join().unwrap(); // still cached: the read never went to the store
+        if hit != want { env.shutdown(); return Some((hit.clone(), hit, want)); }
+    }
+    env.shutdown();
+    None
+}
+
 // ------------------------------------------------------------------------------------------------
 macro_rules! pick_sent { ($idx:expr, $f:ident) => { match $idx { 0 => $f::<Sent0>, 1 => $f::<Sent1>, 2 => $f::<Sent2>, 3 => $f::<Sent3>, 4 => $f::<Sent4>, _ => $f::<Sent5> } }; }
 fn main() {
@@ -959,6 +1014,29 @@ fn main() {
         if bad > 0 {
             fails_json.push(format!("{{\"sig\":\"set-stale-fill-two-threads\",\"desc\":{},\"case\":\"scenario set-fill-vs-insert (run the harness with --set-fill-vs-insert)\"}}",
                 jstr(&format!("two threads, key-of-set cache: a get that took its staging snapshot before another task's insert/remove installs an in-memory set without that operation; {bad}/{runs} runs stale; {first}"))));
+        }
+    }
+
+    if a.rest.iter().any(|x| x == "--scan-vs-flush") {
+        let scen: fn(u64, bool, bool) -> Option<(BTreeSet<u64>, BTreeSet<u64>, BTreeSet<u64>)> = pick_sent!(sidx, scenario_scan_vs_commit_flush);
+        let (mut bad, mut runs, mut skipped) = (0, 0, 0);
+        let mut first = String::new();
+        for (cap, evicted) in [(4u64, false), (1, false), (1, true), (2, true)] { for remove in [false, true] {
+            let r = std::panic::catch_unwind(|| scen(cap, evicted, remove));
+            match r {
+                Ok(Some((t1, after, want))) => { runs += 1; if after != want || t1 != want { bad += 1; if first.is_empty() { first = format!("cap={cap} evicted-first={evicted} remove={remove}: the racing get returned {}, a later get returned {}, expected {}", fmt_set(&t1), fmt_set(&after), fmt_set(&want)); } } }
+                Ok(None) => skipped += 1,
+                Err(_) => { runs += 1; bad += 1; if first.is_empty() { first = "scenario panicked".into(); } }
+            }
+        } }
+        conc_note.push_str(&format!(" scan-vs-flush runs={runs} wrong={bad} not-evicted={skipped} {first}"));
+        println!("scan-vs-flush runs={runs} wrong={bad} not-evicted={skipped} {first}");
+        if bad > 0 {
+            fails_json.push(format!("{{\"sig\":\"set-scan-vs-commit-flush-two-threads\",\"desc\":{},\"case\":\"scenario scan-vs-flush (run the harness with --scan-vs-flush)\"}}",
+                jstr(&format!("two threads, key-of-set cache: a batch whose commit and after-commit flush both fall between a read's store scan and its install is missing from the set that is returned / cached (the staging snapshot must be the one taken BEFORE the scan: theorem set_get_snapshot_before_scan); {bad}/{runs} runs wrong; {first}"))));
+        }
+        if runs < 6 {
+            fails_json.push(format!("{{\"sig\":\"panic\",\"desc\":{},\"case\":\"scenario scan-vs-flush\"}}", jstr(&format!("scan-vs-flush: only {runs} of 8 variants could be run ({skipped} could not evict the set)"))));
         }
     }
 
